@@ -81,6 +81,9 @@ func (f *ParseFloat) Call(s *slip.Scope, args slip.List, depth int) (result slip
 		for pos := 1; pos < len(args); pos++ {
 			if sym, ok = args[pos].(slip.Symbol); ok && 1 < len(sym) && sym[0] == ':' { // keyword
 				pos++
+				if len(args) <= pos {
+					slip.ErrorPanic(s, depth, "%s missing an argument", sym)
+				}
 				switch sym {
 				case slip.Symbol(":start"):
 					if num, ok2 := args[pos].(slip.Fixnum); ok2 {
